@@ -11,6 +11,7 @@ import Compass.Model.Instance
 import Mathlib.Tactic.IntervalCases
 import Compass.Proofs.SearchDiscipline
 import Compass.Proofs.RouteSums
+import Compass.Proofs.StateRefine
 
 namespace Compass
 namespace C03
@@ -475,6 +476,100 @@ example : ∃ res route, runVertexOriented dijkstraConfig.inst 0 (some 4) [0, 1,
         simp [RouteSums.routeSummary, List.getLast?_map, Function.comp_def]
       rw [h1, hstates]
       rfl
+
+/-! ### The same statements over the full state model (`Model/StateModel.lean`, property C11)
+
+`Proofs/StateRefine.lean`: the state layer these theorems run over (`featIndex`, `initialState`,
+`addDistance`, `addTime` on the feature list) is `StateModel` of `Model/StateModel.lean` whenever the
+feature names are pairwise distinct (`StateRefine.Represents m c.feats`, which holds for
+`StateModel::new` and `StateModel::empty().extend(..)` of the features).  So the hypotheses about the
+distance / time slot are `get_index` / `get_feature` facts of that state model, and the conclusion is
+about `get_distance` / `get_time` of the reported state vectors. -/
+
+/-- `dijkstra_route_distance_is_sum` through the state model: `get_distance` of the state reported at
+route element `k`, in the feature's unit, is the feature's declared initial value plus the lengths of
+the first `k + 1` edges -/
+theorem dijkstra_route_distance_is_sum_state_model (c : Config α) (hadj : c.AdjConsistent)
+    (hwf : c.wf = some 0) {source t : Nat} {sched : List Nat} {res : SearchResult α} (hts : t ≠ source)
+    (hrun : runVertexOriented c.inst source (some t) sched = .ok res)
+    (m : StateModel α) (hm : StateRefine.Represents m c.feats)
+    {i : Nat} {fu : DistanceUnit} {init : α} (hi : m.getIndex "distance" = some i)
+    (hf : m.getFeature "distance" = .ok (.distance fu init)) :
+    ∃ route, res.route = some route ∧ route ≠ [] ∧
+      ∀ k (hk : k < route.length),
+        m.getDistance route[k].state "distance" fu = .ok (init +
+          ((RouteSums.prefixEdges route k).map (RouteSums.distTerm c.trav c.edges fu)).sum) := by
+  obtain ⟨f, hi', hf', hk', hinit⟩ := StateRefine.distSlot_of_feature hm hi hf
+  have hkind : (c.feats[i]?).map (·.kind) = some (FeatKind.dist fu) := by simp [hf', hk']
+  obtain ⟨route, f₂, h1, h2, hf₂, _, hsum⟩ :=
+    dijkstra_route_distance_is_sum c hadj hwf hts hrun hi' hkind
+  rw [hf'] at hf₂
+  simp only [Option.some.injEq] at hf₂
+  subst hf₂
+  refine ⟨route, h1, h2, fun k hk => ?_⟩
+  rw [StateRefine.getDistance_slot hm hi' hkind, hsum k hk, hinit]
+  simp only [C09.distance_convert_id]
+
+/-- `dijkstra_route_time_is_sum` through the state model -/
+theorem dijkstra_route_time_is_sum_state_model (c : Config α) (hadj : c.AdjConsistent)
+    (hwf : c.wf = some 0) {source t : Nat} {sched : List Nat} {res : SearchResult α} (hts : t ≠ source)
+    (hrun : runVertexOriented c.inst source (some t) sched = .ok res)
+    (m : StateModel α) (hm : StateRefine.Represents m c.feats)
+    {j : Nat} {ftu : TimeUnit} {init : α} (hj : m.getIndex "time" = some j)
+    (hf : m.getFeature "time" = .ok (.time ftu init)) :
+    ∃ route, res.route = some route ∧ route ≠ [] ∧
+      ∀ k (hk : k < route.length),
+        m.getTime route[k].state "time" ftu = .ok (init +
+          ((RouteSums.prefixEdges route k).map (RouteSums.timeTerm c.trav c.edges ftu)).sum +
+          ((RouteSums.pairs (RouteSums.prefixEdges route k)).map
+            (fun p => RouteSums.turnDelayTerm c ftu p.1 p.2)).sum) := by
+  obtain ⟨f, hj', hf', hk', hinit⟩ := StateRefine.timeSlot_of_feature hm hj hf
+  have hkind : (c.feats[j]?).map (·.kind) = some (FeatKind.time ftu) := by simp [hf', hk']
+  obtain ⟨route, f₂, h1, h2, hf₂, hsum⟩ := dijkstra_route_time_is_sum c hadj hwf hts hrun hj' hkind
+  rw [hf'] at hf₂
+  simp only [Option.some.injEq] at hf₂
+  subst hf₂
+  refine ⟨route, h1, h2, fun k hk => ?_⟩
+  rw [StateRefine.getTime_slot hm hj' hkind, hsum k hk, hinit]
+  simp only [C09.time_convert_id]
+
+/-- the link relation itself through the state model: every element of the Dijkstra route is one
+`EdgeTraversal` step written against the `StateModel` API (`StateRefine.edgeTraversalSM`:
+`state_model.add_distance / add_time`) from its predecessor, the first from
+`state_model.initial_state()` -/
+theorem dijkstra_route_accumulates_state_model [IntCodec α] (c : Config α)
+    (hadj : c.AdjConsistent) (hwf : c.wf = some 0)
+    {source t : Nat} {sched : List Nat} {res : SearchResult α} (hts : t ≠ source)
+    (hrun : runVertexOriented c.inst source (some t) sched = .ok res)
+    (m : StateModel α) (hm : StateRefine.Represents m c.feats) :
+    ∃ route s0, res.route = some route ∧ route ≠ [] ∧ m.initialState = .ok s0 ∧
+      (∀ b, route.head? = some b →
+        StateRefine.edgeTraversalSM c m b.edge none s0 = .ok (b.access, b.traversal, b.state)) ∧
+      ∀ i (hi : i + 1 < route.length),
+        StateRefine.edgeTraversalSM c m route[i + 1].edge (some route[i].edge) route[i].state =
+          .ok (route[i + 1].access, route[i + 1].traversal, route[i + 1].state) := by
+  obtain ⟨route, h1, h2, h3, h4⟩ := dijkstra_route_accumulates c hadj hwf hts hrun
+  refine ⟨route, initialState c.feats, h1, h2, StateRefine.initialState_eq hm, ?_, ?_⟩
+  · intro b hb
+    rw [← StateRefine.edgeTraversal_eq hm]
+    exact h3 b hb
+  · intro i hi
+    rw [← StateRefine.edgeTraversal_eq hm]
+    exact h4 i hi
+
+/-- non-vacuity: the hypotheses of the three theorems are met by `dijkstraConfig` with
+`StateModel::new` of its features — distinct names, the distance feature in slot 0 (metres), the time
+feature in slot 1 (seconds) — and `get_distance` / `get_time` of the reported summary `[400, 2000]`
+return the closed forms evaluated in the example above -/
+example : StateRefine.Represents (StateRefine.toStateModel dijkstraConfig.feats) dijkstraConfig.feats ∧
+    (StateRefine.toStateModel dijkstraConfig.feats).getIndex "distance" = some 0 ∧
+    (StateRefine.toStateModel dijkstraConfig.feats).getFeature "distance" = .ok (.distance .meters 0) ∧
+    (StateRefine.toStateModel dijkstraConfig.feats).getIndex "time" = some 1 ∧
+    (StateRefine.toStateModel dijkstraConfig.feats).getFeature "time" = .ok (.time .seconds 0) ∧
+    (StateRefine.toStateModel dijkstraConfig.feats).getDistance [400, 2000] "distance" .meters = .ok 400 ∧
+    (StateRefine.toStateModel dijkstraConfig.feats).getTime [400, 2000] "time" .seconds = .ok 2000 :=
+  ⟨StateRefine.represents_new _ (by decide), by decide +kernel, rfl, by decide +kernel,
+    rfl, by decide +kernel, by decide +kernel⟩
 
 end C03
 end Compass
